@@ -138,3 +138,38 @@ contract("C11.unit_rule", file=CU, func="UnitValueValidator.check_tag_unit_class
              "C11.units.not_a_unit_tag_is_silent": "implies(not original_tag.unit_class_tag, len(result) == 0)",
          },
          assume=["the error_code override branch (a copy of the first issue under another code) is outside the contract (requires error_code is None)"])
+
+# C01/C11 "bad unit or value ... forbidden character": the text after the base tag is ALWAYS judged by one of the three rules - the unit
+# rule for a unit-class tag, else the value-class rule for a value-class tag, else the extension-character rule (also for value-taking
+# tags that have neither class); only the bare placeholder '#' is exempt
+HVF = "hed/validator/hed_validator.py"
+CLASSES_ = __import__("pyvc.contract", fromlist=["CLASSES"]).CLASSES
+CLASSES_["UnitRuleTag"]["fields"].update({"extension": "Str", "value_class_tag": "Bool"})
+EXTERNS["UnitRuleTag.is_value_class_tag"] = lambda interp, args, kwargs: interp.field_read(args[0], "value_class_tag")
+class_model("CharValidatorM", {})
+class_model("HedValidatorU", {"_unit_validator": "UnitValueValidator", "_char_validator": "CharValidatorM"})
+contract("C11.value_class_rule", file=CU, func="UnitValueValidator.check_tag_value_class_valid",
+         params={"self": "UnitValueValidator", "original_tag": "UnitRuleTag", "validate_text": "Str", "report_as": "Opt[UnitRuleTag]",
+                 "error_code": "Opt[Str]", "index_offset": "Int"}, returns="List[Issue]", enc="native", trusted=True,
+         ensures={"named": "result == value_rule_issues_of(original_tag, validate_text)"})
+contract("C11.extension_char_rule", file="hed/validator/util/char_util.py", func="CharValidator.check_for_invalid_extension_chars",
+         params={"self": "CharValidatorM", "original_tag": "UnitRuleTag", "validate_text": "Str", "error_code": "Opt[Str]", "index_offset": "Int"},
+         returns="List[Issue]", enc="native", trusted=True, self_class="CharValidatorM",
+         ensures={"named": "result == ext_char_issues_of(original_tag, validate_text)"})
+contract("C11.value_text_always_judged", file=HVF, func="HedValidator.validate_units",
+         params={"self": "HedValidatorU", "original_tag": "UnitRuleTag", "validate_text": "Opt[Str]", "report_as": "Opt[UnitRuleTag]",
+                 "error_code": "Opt[Str]", "index_offset": "Int"}, returns="List[Issue]", enc="native", also=["C01"], self_class="HedValidatorU",
+         requires=["error_code is None"],
+         lets={"text": "original_tag.extension if validate_text is None else validate_text"},
+         ensures={
+             "C11.dispatch.bare_placeholder_exempt": "implies(text == '#', len(result) == 0)",
+             "C11.dispatch.value_class_tag_by_value_rule": "implies(text != '#' and not original_tag.unit_class_tag and original_tag.value_class_tag,"
+                                                           " len(result) == len(value_rule_issues_of(original_tag, text))"
+                                                           " and all_in(value_rule_issues_of(original_tag, text), lambda x: is_in(x, result)))",
+             "C11.dispatch.tag_without_class_by_character_rule": "implies(text != '#' and not original_tag.unit_class_tag and not original_tag.value_class_tag"
+                                                                 " and len(original_tag.extension) > 0,"
+                                                                 " len(result) == len(ext_char_issues_of(original_tag, text))"
+                                                                 " and all_in(ext_char_issues_of(original_tag, text), lambda x: is_in(x, result)))",
+             "C11.dispatch.unit_class_tag_by_unit_rule": "implies(text != '#' and original_tag.unit_class_tag and ' ' in stripped_value_of(original_tag, text),"
+                                                         " any_in(result, lambda x: x.kind == 'UNITS_INVALID'))",
+         })
